@@ -1,0 +1,18 @@
+//go:build verif
+// +build verif
+
+package mysql
+
+import "github.com/shopspring/decimal"
+
+// Add-only exports for the verification harness in /verif (build tag verif), property C13.
+
+// VerifDecimalFromString returns the decimal.Decimal that ParseText builds for
+// a NEWDECIMAL cell, as the dynamic value handed to AppendBinaryValue.
+func VerifDecimalFromString(s string) (interface{}, error) {
+	d, err := decimal.NewFromString(s)
+	if err != nil {
+		return nil, err
+	}
+	return d, nil
+}
